@@ -26,7 +26,7 @@ FUNCS = {
                'st_Gamma_udd4', 'st_Riemann_down4', 'st_Riemann_uddd4', 'st_Riemann_uudd4', 'st_Ricci_down4',
                'st_Ricci_down3', 'st_RicciS', 'Einsteindown4', 'Kretschmann'],
         helpers=['s_covd', 's_to_st', 'trace3', 'trace4'],
-        scens=['onshell', 'onshell_vac'], thorough_scens=['onshell', 'onshell_vac', 'onshell_comp'],
+        scens=['onshell', 'onshell_vac', 'onshell_comp'], thorough_scens=['onshell', 'onshell_vac', 'onshell_comp'],
         chain=['gdown4', 'gup4', 'gdet', 'st_Gamma_udd4', 'st_Riemann_down4', 'st_Riemann_uddd4',
                'st_Riemann_uudd4', 'st_Ricci_down4', 'st_RicciS', 'Einsteindown4', 'Kretschmann']),
     'C05': dict(
@@ -37,7 +37,7 @@ FUNCS = {
         helpers=['s_covd', 'st_covd', 's_div', 's_curl', 'Lie_beta', 'levicivita_down3', 'levicivita_down4',
                  'levicivita_symbol_down3', 'levicivita_symbol_down4', 'kronecker_delta3', 'kronecker_delta4',
                  'trace3', 'tracefree3'],
-        scens=['onshell'], thorough_scens=['onshell', 'onshell_comp'],
+        scens=['onshell', 'onshell_comp'], thorough_scens=['onshell', 'onshell_comp'],
         chain=['s_Gamma_udd3', 's_Riemann_uddd3', 's_Riemann_down3', 's_Ricci_down3', 's_RicciS',
                's_Gamma_udd3_bssnok', 's_Gamma_bssnok', 's_Ricci_down3_bssnok', 's_RicciS_bssnok',
                's_Ricci_down3_phi', 'DDalpha']),
@@ -51,7 +51,7 @@ FUNCS = {
                'Momentumx_norm', 'Momentumy_norm', 'Momentumz_norm', 'Momentumdownx_norm', 'Momentumdowny_norm',
                'Momentumdownz_norm'],
         helpers=['Lie_beta', 's_covd', 'tracefree3', 'trace3'],
-        scens=['onshell', 'onshell_vac'], thorough_scens=['onshell', 'onshell_vac', 'onshell_comp'],
+        scens=['onshell', 'onshell_vac', 'onshell_comp'], thorough_scens=['onshell', 'onshell_vac', 'onshell_comp'],
         chain=['Hamiltonian', 'Momentumup3', 'Momentumdown3', 'dtKtrace', 'dtphi_bssnok', 'dtgammaup3',
                'dtgammadown3_bssnok', 'dtAdown3_bssnok', 'dts_Gamma_bssnok', 'rho_n_fromHam', 'fluxup3_n_fromMom']),
     'C09': dict(
@@ -62,7 +62,7 @@ FUNCS = {
                'angmomdown3_n', 'conserved_D', 'conserved_E', 'conserved_Sdown4', 'conserved_Sdown3',
                'conserved_Sup4', 'conserved_Sup3', 'gammadown4', 'gammaup4', 'nup4', 'ndown4'],
         helpers=['trace4', 'trace3', 'levicivita_down3'],
-        scens=['fluid', 'fluid_rho0zero', 'fluid_atrest', 'freeT'],
+        scens=['fluid', 'fluid_comp', 'fluid_rho0zero', 'fluid_atrest', 'freeT'],
         thorough_scens=['fluid', 'fluid_comp', 'fluid_rho0zero', 'fluid_atrest', 'fluid_dust', 'freeT', 'onshell'],
         chain=['uup4', 'udown4', 'Tdown4', 'Tup4', 'Ttrace', 'rho_n', 'fluxup3_n', 'fluxdown3_n', 'Stressdown3_n',
                'Stressup3_n', 'Stresstrace_n', 'press_n', 'anisotropic_press_down3_n', 'conserved_D',
@@ -74,7 +74,7 @@ FUNCS = {
         helpers=['levicivita_down3', 'levicivita_down4', 'levicivita_symbol_down3', 'levicivita_symbol_down4',
                  's_to_st', 's_covd', 'tracefree3', 'norm3', 'norm4', 'vector_inner_product3',
                  'vector_inner_product4', 'null_vector_base'],
-        scens=['onshell', 'onshell_vac', 'onshell_fluidtetrad'], thorough_scens=['onshell', 'onshell_vac', 'onshell_fluidtetrad', 'onshell_comp'],
+        scens=['onshell', 'onshell_vac', 'onshell_fluidtetrad', 'onshell_comp'], thorough_scens=['onshell', 'onshell_vac', 'onshell_fluidtetrad', 'onshell_comp'],
         chain=['st_Weyl_down4', 'eweyl_n_down3', 'bweyl_n_down3', 'eweyl_u_down4', 'bweyl_u_down4'],
         chain_scens=['onshell', 'onshell_vac']),
     'C19': dict(
@@ -83,7 +83,7 @@ FUNCS = {
                'hdown4', 'hup4', 'hmixed4', 'conserved_D', 'conserved_E', 'conserved_Sdown4', 'conserved_Sdown3',
                'conserved_Sup4', 'conserved_Sup3'],
         helpers=['st_covd'],
-        scens=['onshell'], thorough_scens=['onshell', 'onshell_comp'],
+        scens=['onshell', 'onshell_comp'], thorough_scens=['onshell', 'onshell_comp'],
         chain=['uup4', 'st_covd_udown4', 'accelerationdown4', 'theta', 'sheardown4', 'shear2', 'omegadown4',
                'omega2', 'thetadown4']),
 }
@@ -100,6 +100,23 @@ def run_tensor(R, pid):
         function_obligations(R, W, f, scens, npoints=npts)
     for s in scens[:1]:
         helper_obligations(R, W, s, only=set(cfg.get('helpers', [])), npoints=npts)
+    # a helper method that tests the cache ('X' in self.data) has more than one path: every such helper is also run in the
+    # regimes where those tests come out differently (no shift supplied, shift through a single component, shift absent but
+    # its time derivative supplied), with the composite key absent and present
+    import aurel.core as _C
+    from engine.e1 import discover_guards as _dg
+    guarded = set()
+    for h in cfg.get('helpers', []):
+        f_ = getattr(_C.AurelCore, h, None)
+        try:
+            if f_ is not None and _dg(f_)['keys']:
+                guarded.add(h)
+        except Exception:
+            guarded.add(h)
+    for h in sorted(guarded):
+        for s in ('noshift', 'noshift_dtshift', 'shift_x', 'shift_z'):
+            for present in ((), ('betaup3',)):
+                helper_obligations(R, W, s, only={h}, npoints=1, present=present, tag='|cache:' + ('+'.join(present) or '-'))
     for s in cfg.get('chain_scens', scens):
         chain_obligations(R, W, s, cfg.get('chain', []), 'property', npoints=npts)
     for lscens, lems, relkw in LEMMAS.get(pid, []):
